@@ -10,7 +10,7 @@ R05.4  bulk: memory.copy -> overlap-safe copy, memory.fill -> memset, memory.ini
 from .. import astdb, pe, emit, oracle, templates, runtime, ctyperules as ct, semrules as sr, memrules as mr
 from ..astdb import AnalysisBroken
 from ..pe import Sym, Ptr, unk, is_sym
-from . import c01
+from . import c01, c06
 
 PAGE = 65536
 
@@ -344,6 +344,8 @@ def run(chk):
     check_access_rows(chk, it, tabs, rows, configs, 'R05.1', 'R05.2', plain_rt_check)
     check_grow(chk)
     check_bulk(chk, it, tabs, configs)
+    # memory.init reads d<k>: in the blob modes that pointer must address segment k inside the concatenated blob
+    c06.check_data_modes(chk, tus, 'R05.4')
     chk.floor('R05.1', 23 + 5)
     chk.floor('R05.2', 23 * 6)
     chk.floor('R05.3', 8)
